@@ -351,8 +351,11 @@ def main(argv: list[str]) -> int:
     if harness_errors:
         ev["coverage"]["harness_errors"] = harness_errors[:5]
     if not only_legs:
-        os.makedirs(os.path.join(HOME, "evidence"), exist_ok=True)
-        with open(os.path.join(HOME, "evidence", f"{prop}.json"), "w") as f:
+        # evidence/ describes /repo itself; runs against a scratch copy (VERIF_REPO, used by vf.mutate) write elsewhere
+        scratch_repo = os.environ.get("VERIF_REPO", "/repo") not in ("/repo", "/repo/")
+        evdir = os.path.join(HOME, "out", "evidence-scratch-copy") if scratch_repo else os.path.join(HOME, "evidence")
+        os.makedirs(evdir, exist_ok=True)
+        with open(os.path.join(evdir, f"{prop}.json"), "w") as f:
             json.dump(ev, f, indent=1, default=repr)
 
     for ln in lines:
